@@ -31,6 +31,8 @@ type c03Case struct {
 	PwmFault  string  `json:"pwmFault"`  // ok | refused
 	Stall     bool    `json:"stall"`     // no stop at all: the fan stalls at its maximum (fatal control error)
 	PwmUnreadable bool `json:"pwmUnreadable"` // PWM reads fail from the stop on
+	// HangBeforeStop (cmd fans): the tachometer query stops answering (runs into fan2go's 2 s deadline) shortly before the stop
+	HangBeforeStop bool `json:"hangBeforeStop,omitempty"`
 }
 
 func (c *c03Case) class() string {
@@ -40,6 +42,12 @@ func (c *c03Case) class() string {
 	}
 	if c.Stall {
 		phase = "stall-error"
+	}
+	if c.HangBeforeStop {
+		phase = "time-after-a-query-ran-into-the-deadline"
+	}
+	if c.Spec.OneTool {
+		phase += ":one-tool"
 	}
 	return fmt.Sprintf("%s:mode%d:enable=%v:modeFault=%s:pwmFault=%s:pwmUnreadable=%v:stored=%v:%s", c.Spec.FanKind, c.Spec.OrigMode, c.Spec.HasEnable, c.ModeFault, c.PwmFault, c.PwmUnreadable, c.Spec.Stored, phase)
 }
@@ -119,6 +127,11 @@ func runC03(ctx *Ctx, c *c03Case) {
 	if !c.Stall && c.AtEvent == 0 {
 		go func() {
 			time.Sleep(time.Duration(c.AfterMs) * time.Millisecond)
+			if c.HangBeforeStop {
+				_ = os.WriteFile(rig.state("rpm.hang"), []byte("1"), 0644)
+				time.Sleep(2900 * time.Millisecond) // one query has run into the 2 s deadline (plus 0.5 s for its output pipes) by now
+				_ = os.Remove(rig.state("rpm.hang"))
+			}
 			stop(false)
 		}()
 	}
@@ -168,6 +181,12 @@ func runC03(ctx *Ctx, c *c03Case) {
 	cancel()
 	wg.Wait()
 	ctx.Eval(1)
+	if c.HangBeforeStop {
+		ctx.Count("stops_right_after_a_query_ran_into_the_deadline", 1)
+	}
+	if c.Spec.FanKind == "cmd" {
+		ctx.Count("cmd_fan_cases", 1)
+	}
 	if res.Panic != "" {
 		ctx.Violation("panic-in-run:"+c.class(), res.Panic, c)
 		return
@@ -204,6 +223,8 @@ func genC03(r *rand.Rand) *c03Case {
 		// a cmd fan (no control mode, restore = set command); process spawns make it slow, so only time-based stops
 		c.Spec.FanKind, c.Spec.HasEnable, c.Spec.Stored, c.ModeFault = "cmd", false, true, "ok"
 		c.AfterMs = pick(r, 10, 60, 150, 400)
+		c.Spec.OneTool = r.Intn(2) == 0
+		c.HangBeforeStop = r.Intn(4) == 0
 		return c
 	}
 	switch r.Intn(10) {
